@@ -306,6 +306,8 @@ E("fieldnames", 1, lambda S: etl.fieldnames(S[0]), "nonview", norm=tuple, empty=
 E("wrap", 1, lambda S: etl.wrap(S[0]), "stream")
 E("cache", 1, lambda S: _cache(S[0]), "stream")
 E("cache_n2", 1, lambda S: _cache(S[0], n=2), "stream")
+E("cache_n0", 1, lambda S: _cache(S[0], n=0), "stream")
+E("cache_n1", 1, lambda S: _cache(S[0], n=1), "stream")
 E("progress", 1, lambda S: etl.progress(S[0], 2, out=io.StringIO()), "stream")
 E("log_progress", 1, lambda S: etl.log_progress(S[0], 2), "stream")
 E("clock", 1, lambda S: etl.clock(S[0]), "stream")
